@@ -22,6 +22,7 @@ type MMap struct {
 }
 
 func NewMMap(fileName string) (*MMap, error) {
+	verifEvent("open", fileName, nil, 0)
 	fd, err := os.OpenFile(fileName, os.O_CREATE|os.O_RDWR, DataFilePerm)
 	if err != nil {
 		return nil, err
@@ -71,16 +72,19 @@ func (m *MMap) Write(b []byte) (int, error) {
 	if err := m.remap(m.virtualSize, len(b)); err != nil {
 		return 0, err
 	}
+	verifEvent("write", m.file.Name(), b, int64(len(b)))
 	copy(m.activeMap[m.virtualSize:m.virtualSize+int64(len(b))], b)
 	m.virtualSize += int64(len(b))
 	return len(b), nil
 }
 
 func (m *MMap) Sync() error {
+	verifEvent("sync", m.file.Name(), nil, 0)
 	return m.activeMap.Flush()
 }
 
 func (m *MMap) Close() error {
+	verifEvent("sync", m.file.Name(), nil, 0)
 	if err := m.activeMap.Flush(); err != nil {
 		return err
 	}
@@ -90,6 +94,7 @@ func (m *MMap) Close() error {
 	if err := m.ResetFileSize(); err != nil {
 		return err
 	}
+	verifEvent("close", m.file.Name(), nil, 0)
 	return m.file.Close()
 }
 
@@ -109,6 +114,7 @@ func (m *MMap) ResetFileSize() error {
 		}
 	}
 	m.endOff = 0
+	verifEvent("truncate", m.file.Name(), nil, m.virtualSize)
 	return m.file.Truncate(m.virtualSize)
 }
 
@@ -124,6 +130,7 @@ func (m *MMap) remap(newBase int64, dataSize int) error {
 
 	// 如果新映射区域超过设置的文件大小, 则进行调整
 	if info, _ := m.file.Stat(); info.Size() < m.endOff {
+		verifEvent("truncate", m.file.Name(), nil, m.endOff)
 		if err := m.file.Truncate(m.endOff); err != nil {
 			return fmt.Errorf("truncate failed: %v", err)
 		}
